@@ -841,3 +841,62 @@ pub fn hammer(threads: usize, ops: usize, secs: u64, policy: &str, mem_limit: u6
         "bytes": usage, "usage": usage.to_string(), "gets": [], "phys": [], "finished_threads": done.load(Ordering::SeqCst)})).unwrap();
     outcome == "Complete"
 }
+
+
+// ---------------------------------------------------------------------------------------------
+// CAS uniqueness under OS-scheduled threads (C02 across keys): every thread owns a key and stores it again and again;
+// now and then it tries a conditional store with a CAS that its key has carried before.  The CAS counter is shared by
+// all keys: if it ever steps back, a key is handed a CAS it has had before in the same lifetime.
+
+/// Returns one event: per thread the number of acknowledged stores, how many of the acknowledged CAS values the key
+/// had carried before, and how many conditional stores with a superseded CAS were accepted.
+pub fn cas_uniqueness(threads: usize, ops: usize) -> Value {
+    let sut = Sut::new("none", 0, 1 << 20);
+    let store = sut.store.clone();
+    let barrier = Arc::new(std::sync::Barrier::new(threads));
+    let mut handles = Vec::new();
+    for w in 0..threads {
+        let store2 = store.clone();
+        let barrier = barrier.clone();
+        handles.push(std::thread::spawn(move || {
+            let handler = BinaryHandler::new(store2);
+            let key = format!("own{}", w).into_bytes();
+            let mut seen: std::collections::HashSet<u64> = std::collections::HashSet::new();
+            let (mut acks, mut dups, mut stale_ok, mut unanswered) = (0u64, 0u64, 0u64, 0u64);
+            let mut older: u64 = 0;
+            barrier.wait();
+            for i in 0..ops {
+                let stale_try = i % 5 == 4 && older != 0;
+                let c = Cmd { op: "set".into(), q: false, gk: false, key: key.clone(), val: vec![b'v'; 1 + (i % 7)], flags: 1, ttl: 0,
+                    cas: CasSpec::Lit(if stale_try { older } else { 0 }), opaque: i as u32, delta: 0, initial: 0 };
+                let (r, panicked) = exec_cmd(&handler, 1 << 20, &c, if stale_try { older } else { 0 });
+                if panicked || r.len() != 1 {
+                    unanswered += 1;
+                    continue;
+                }
+                let st = r[0]["st"].as_u64().unwrap_or(999);
+                let cas: u64 = r[0]["cas"].as_str().and_then(|x| x.parse().ok()).unwrap_or(0);
+                if st == 0 {
+                    if stale_try {
+                        stale_ok += 1; // `older` was superseded by at least one later store of this key
+                    }
+                    acks += 1;
+                    if !seen.insert(cas) {
+                        dups += 1;
+                    }
+                    if i % 5 == 1 {
+                        older = cas; // remembered; at least two more stores follow before it is tried
+                    }
+                }
+            }
+            (acks, dups, stale_ok, unanswered)
+        }));
+    }
+    let mut res: Vec<(u64, u64, u64, u64)> = Vec::new();
+    for h in handles {
+        res.push(h.join().unwrap_or((0, 0, 0, 1)));
+    }
+    json!({"e": "casuniq", "threads": threads, "ops": ops,
+        "acks": res.iter().map(|x| x.0).collect::<Vec<_>>(), "dups": res.iter().map(|x| x.1).collect::<Vec<_>>(),
+        "stale_ok": res.iter().map(|x| x.2).collect::<Vec<_>>(), "unanswered": res.iter().map(|x| x.3).collect::<Vec<_>>()})
+}
